@@ -78,6 +78,29 @@ DocAt(i) ==
                      \o (IF v = 1 THEN << [name |-> "empty", ext |-> FALSE, rels |-> <<>>] >> ELSE <<>>),
            conds |-> IF v = 0 THEN <<>> ELSE IF v = 1 THEN <<Cond1(N, v)>> ELSE <<Cond1(N, v), AllTypesCond>>]
 
+\* C19 (behavioural half for Go): every keyword the grammar admits as an identifier, in every identifier position
+Keywords == <<"model", "schema", "type", "relation", "module", "extend">>
+KwDoc(k, role) ==
+  LET kw == Keywords[(k % 6) + 1]
+      N0 == Names(0)
+      pick(r, dflt) == IF role % 10 = r THEN kw ELSE dflt
+      op == OpAt(role \div 10)
+      tname == pick(0, "doc")
+      rels == << [name |-> pick(1, "p"), rw |-> [k |-> "this"], restr |-> <<Ty(pick(2, tname))>>],
+                 [name |-> "a", rw |-> [k |-> "this"], restr |-> <<Ty("user"), Us(pick(2, tname), pick(3, pick(1, "p")))>>],
+                 [name |-> "b", rw |-> [k |-> "this"], restr |-> <<Ty("user")>>],
+                 [name |-> "kwrel", rw |-> [k |-> "this"], restr |-> <<Ty("user")>>],
+                 [name |-> "x", rw |-> [k |-> op, ch |-> << [k |-> "cu", rel |-> "a"],
+                                                          CASE role % 10 = 4 -> [k |-> "cu", rel |-> kw]                                   \* operand right after or / and / but not
+                                                            [] role % 10 = 5 -> [k |-> "ttu", rel |-> kw, ts |-> pick(1, "p")]             \* computed relation of a tuple-to-userset
+                                                            [] role % 10 = 6 -> [k |-> "ttu", rel |-> "b", ts |-> kw]                      \* tupleset
+                                                            [] role % 10 = 7 -> [k |-> "par", ch |-> <<[k |-> "cu", rel |-> kw]>>]         \* inside parentheses
+                                                            [] OTHER -> [k |-> "cu", rel |-> "b"] >>], restr |-> <<>>] >>
+      rels2 == IF role % 10 \in {4, 5, 6, 7} THEN [rels EXCEPT ![4].name = kw] ELSE rels
+  IN IF role % 10 = 8
+     THEN [header |-> "module", schema |-> "", module |-> kw, types |-> << [name |-> "user", ext |-> FALSE, rels |-> <<>>], [name |-> tname, ext |-> TRUE, rels |-> rels2] >>, conds |-> <<>>]
+     ELSE [header |-> "model", schema |-> "1.1", module |-> "", types |-> << [name |-> "user", ext |-> FALSE, rels |-> <<>>], [name |-> tname, ext |-> FALSE, rels |-> rels2] >>, conds |-> <<>>]
+
 (***************************************************************************)
 (* C09: the catalogue of structural violations, D -> D' at a site          *)
 (***************************************************************************)
@@ -177,7 +200,7 @@ StyleOf(s) == [ws |-> s.ws, ows |-> s.ows, eol |-> s.eol, ind |-> s.ind, blank |
 Init == ji \in 1..NumJobs /\ job = <<>>
 Load == job = <<>> /\ job' = JobAt(ji) /\ UNCHANGED ji
 Emit == /\ job # <<>> /\ "done" \notin DOMAIN job
-        /\ LET D0 == DocAt(job.doc)
+        /\ LET D0 == IF "kw" \in DOMAIN job THEN KwDoc(job.kw[1], job.kw[2]) ELSE DocAt(job.doc)
                N == Names(job.doc % 3)
                V == IF job.viol = 0 THEN [viol |-> "", tag |-> <<>>, doc |-> D0] ELSE Violate(D0, job.viol, job.vsite, N)
                D == V.doc
